@@ -1,0 +1,10 @@
+//go:build verif
+
+// Contracts for the deductive verifier in /verif (govc). Only compiled with -tags verif.
+
+package i18n
+
+// C12 (assumption): looking up a message in the gettext catalogue writes no program state
+//@ func G
+//@   trusted
+//@   assigns nothing
